@@ -1,6 +1,8 @@
 SPECIFICATION MCSpec
 CONSTANTS
   NotCleared <- MCNotClearedBug
+  FailOutcomes = {"leak", "clean"}
+  MaxObjs = 3
   MaxSteps = 6
 INVARIANTS NoResidue PoolTypeOK
 PROPERTIES AcquireClean
